@@ -469,11 +469,74 @@ func (fc *FnCtx) mapArrays(st *State, m Val) (has, val string, ok bool) {
 	return has, val, true
 }
 
+// structFieldsOf: a struct (by value) whose fields are all scalars or strings can be the
+// element type of a modelled map: one array per field (Rec.val.<field>).
+func structFieldsOf(et types.Type) ([]*types.Var, bool) {
+	if et == nil {
+		return nil, false
+	}
+	stt, ok := et.Underlying().(*types.Struct)
+	if !ok || stt.NumFields() == 0 {
+		return nil, false
+	}
+	var out []*types.Var
+	for i := 0; i < stt.NumFields(); i++ {
+		f := stt.Field(i)
+		if fs := sortOf(f.Type()); fs != SInt && fs != SBool && fs != SStr {
+			return nil, false
+		}
+		out = append(out, f)
+	}
+	return out, true
+}
+
+func (fc *FnCtx) mapFieldArray(st *State, m Val, f *types.Var) (string, string) {
+	ks, _, _, _ := mapSorts(m.GT)
+	fs := sortOf(f.Type())
+	sortDecl := "(Array " + ks.smt() + " " + fs.smt() + ")"
+	key := m.Rec + ".val." + f.Name()
+	if v, ok := st.env[key]; ok {
+		return v.T, sortDecl
+	}
+	if st.fresh[m.Rec] {
+		zero := map[Sort]string{SInt: "0", SBool: "false", SStr: "emptystr"}[fs]
+		t := "((as const " + sortDecl + ") " + zero + ")"
+		st.env[key] = Val{T: t, S: SOpaque, Raw: sortDecl}
+		return t, sortDecl
+	}
+	if v, ok := fc.initial[key]; ok {
+		return v.T, sortDecl
+	}
+	n := fc.freshName("in_" + key)
+	fc.decls = append(fc.decls, fmt.Sprintf("(declare-const %s %s)", n, sortDecl))
+	fc.initial[key] = Val{T: n, S: SOpaque, Raw: sortDecl}
+	return n, sortDecl
+}
+
 func (fc *FnCtx) mapRead(st *State, m Val, k Val, resT types.Type) Val {
 	_, vs, et, _ := mapSorts(m.GT)
 	has, val, ok := fc.mapArrays(st, m)
 	if !ok {
 		return fc.freshVal(st, "mapread", sortOf(resT), resT)
+	}
+	if fields, isStruct := structFieldsOf(et); isStruct && sortOf(et) == SRec {
+		// struct-valued map: a record whose fields are the per-field arrays read at k
+		// (the zero struct when the key is absent)
+		rv := fc.freshVal(st, "mapval", SRec, et)
+		for _, f := range fields {
+			arr, _ := fc.mapFieldArray(st, m, f)
+			fs := sortOf(f.Type())
+			zero := map[Sort]string{SInt: "0", SBool: "false", SStr: "emptystr"}[fs]
+			if fs == SStr {
+				// every value stored in a Go map of strings is a well-formed string (stated for all
+				// keys: the key at hand may be a bound variable of a quantified clause)
+				ks, _, _, _ := mapSorts(m.GT)
+				// (added unguarded: the current guard may mention the bound variable)
+				st.assume = append(st.assume, "(forall ((zzk "+ks.smt()+")) (! (wfstr (select "+arr+" zzk)) :pattern ((select "+arr+" zzk))))")
+			}
+			st.env[rv.Rec+"."+f.Name()] = Val{T: "(ite (select " + has + " " + k.T + ") (select " + arr + " " + k.T + ") " + zero + ")", S: fs, GT: f.Type()}
+		}
+		return rv
 	}
 	if rs := sortOf(et); rs != SInt && rs != SBool && rs != SStr {
 		_ = has
@@ -501,10 +564,17 @@ func (fc *FnCtx) mapWrite(st *State, m Val, k, v Val) {
 	if !ok {
 		return
 	}
+	ks, vs, et, _ := mapSorts(m.GT)
+	if fields, isStruct := structFieldsOf(et); isStruct && v.S == SRec && v.Rec != "" {
+		for _, f := range fields {
+			arr, sortDecl := fc.mapFieldArray(st, m, f)
+			fv := fc.readKey(st, v.Rec+"."+f.Name(), f.Type())
+			st.env[m.Rec+".val."+f.Name()] = Val{T: "(store " + arr + " " + k.T + " " + fv.T + ")", S: SOpaque, Raw: sortDecl}
+		}
+	}
 	if v.S != SInt && v.S != SBool && v.S != SStr {
 		v = Val{T: "0", S: SInt}
 	}
-	ks, vs, _, _ := mapSorts(m.GT)
 	st.env[m.Rec+".has"] = Val{T: "(store " + has + " " + k.T + " true)", S: SOpaque, Raw: "(Array " + ks.smt() + " Bool)"}
 	st.env[m.Rec+".val"] = Val{T: "(store " + val + " " + k.T + " " + v.T + ")", S: SOpaque, Raw: "(Array " + ks.smt() + " " + vs.smt() + ")"}
 }
